@@ -765,6 +765,8 @@ func Check(r *ev.Run, replay string) {
 			dbg("unmerged view-mutate-view " + d.name)
 		}
 	}
+	longLists(r, doms[0], &t, r.Thorough())
+	dbg("long lists")
 	r.Set("states", t.states)
 	r.Set("transitions", t.transitions)
 	r.Set("traces_validated_against_impl", t.validated)
@@ -778,7 +780,7 @@ func Check(r *ev.Run, replay string) {
 		"set s (+ derived c): add remove delete clear union intersection in [v] len for-range; "+
 		"string over the code points of %q (every substring and every string of <= %d code points reachable by slicing, indexing, reversing, appending one code point): [i] [i:j] [:j] [i:] + in len for-range; "+
 		"byte_slice b = bytes of %q (+ derived c: slice / clone / byte_slice() / +), [i]=\"Z\" with at most %d changed bytes per variable; "+
-		"every transition through the object API, every %d-th also as a program through risor.Eval; plus all un-merged operation sequences of depth <= %d (byte_slice: 2) from up to %d starting histories per type (for lists one with spare slice capacity and a stale slot), every %d-th of them also through risor.Eval; quick adds for maps and sets every depth-3 sequence of the shape ordered view, other operation, ordered view. distinct = distinct state keys + distinct (type, operation, operand, destination, callback, outcome class) tuples",
+		"every transition through the object API, every %d-th also as a program through risor.Eval; plus all un-merged operation sequences of depth <= %d (byte_slice: 2) from up to %d starting histories per type (for lists one with spare slice capacity and a stale slot), every %d-th of them also through risor.Eval; quick adds for maps and sets every depth-3 sequence of the shape ordered view, other operation, ordered view; long lists: lists of 9, 12, 16, 17, 20, 33 distinct integers built by single appends or from one literal and drained to one element by pop(i) / delete / remove(value) at position p1 for the first k steps and p2 afterwards (5 positions each; k in 4 places, thorough every k), then grown again, every step judged. distinct = distinct state keys + distinct (type, operation, operand, destination, callback, outcome class) tuples",
 		listLen, aliasLen, baseText, strLen, baseText, maxZ, stride, udepth, len(doms[0].prefixes), ustride))
 	r.Sample(map[string]any{"domain": "list", "history": []string{"l.append(1)", "c = l[0:1]"}, "op": "c.append(2)", "judged": "result, error-or-not, contents of l and c against the Go slice model"})
 	r.Sample(map[string]any{"domain": "list", "script": scriptFor(doms[0], []Op{{K: "append", T: "l", V: "1"}}, Op{K: "iadd", T: "l", I: -1, V: "1"})})
